@@ -67,6 +67,7 @@ type Contract struct {
 	File     string
 	Lemmas   []*Clause
 	Uses     []string // tags whose callee postconditions this function's proof relies on
+	Synth    bool     // synthesised from type invariants
 }
 
 type ContractSet struct {
@@ -75,13 +76,14 @@ type ContractSet struct {
 	Files  []string
 	Errors []string
 	Axioms map[string][]*Clause // package path -> axioms over package-level state
-	Devirt map[string]string   // interface method -> concrete function key
+	Devirt map[string]string   // interface type (full name) -> concrete type expression, with the declaring package path: "<pkgpath>|<type>"
+	TypeInvs map[string]string // type (full name) -> "<pkgpath>|<pred name>"
 }
 
-var reKeyword = regexp.MustCompile(`^(func|pred|spec|axiom|devirt|uses|requires|ensures(\[[^\]]*\])?|assigns|loop|inline|trusted|pure|lemma)\b`)
+var reKeyword = regexp.MustCompile(`^(func|pred|spec|axiom|devirt|typeinv|uses|requires|ensures(\[[^\]]*\])?|assigns|loop|inline|trusted|pure|lemma)\b`)
 
 func loadContracts(pkgDirs map[string]string) *ContractSet {
-	cs := &ContractSet{ByFunc: map[string]*Contract{}, Specs: map[string]*SpecFn{}, Axioms: map[string][]*Clause{}, Devirt: map[string]string{}}
+	cs := &ContractSet{ByFunc: map[string]*Contract{}, Specs: map[string]*SpecFn{}, Axioms: map[string][]*Clause{}, Devirt: map[string]string{}, TypeInvs: map[string]string{}}
 	for pkgPath, dir := range pkgDirs {
 		fn := filepath.Join(dir, "verif_contracts.go")
 		b, err := os.ReadFile(fn)
@@ -169,13 +171,21 @@ func (cs *ContractSet) parseFile(pkgPath, file, src string) {
 				cs.Axioms[pkgPath] = append(cs.Axioms[pkgPath], c)
 			}
 		case "devirt":
-			// devirt <iface method full name> = <function key suffix in this package>
+			// devirt <interface type> = <concrete type>   (both resolved in this package's scope)
 			parts := strings.SplitN(rest, "=", 2)
 			if len(parts) != 2 {
 				cs.errf(file, it.line, "bad devirt")
 				continue
 			}
-			cs.Devirt[strings.TrimSpace(parts[0])] = pkgPath + "." + strings.TrimSpace(parts[1])
+			cs.Devirt[pkgPath+"|"+strings.TrimSpace(parts[0])] = strings.TrimSpace(parts[1])
+		case "typeinv":
+			// typeinv <type> <pred>  : pred(x) is required of and ensured for every parameter of that type in functions without an explicit contract
+			f := strings.Fields(rest)
+			if len(f) != 2 {
+				cs.errf(file, it.line, "bad typeinv")
+				continue
+			}
+			cs.TypeInvs[pkgPath+"|"+f[0]] = f[1]
 		case "requires", "ensures":
 			if cur == nil {
 				cs.errf(file, it.line, "%s outside func", word)
@@ -242,8 +252,10 @@ func (cs *ContractSet) parseFile(pkgPath, file, src string) {
 					cur.Invs[n] = append(cur.Invs[n], c)
 				}
 			case "decreases":
-				if c := mk("decreases", body); c != nil {
+				first := splitTop(body, ',')[0]
+				if c := mk("decreases", first); c != nil {
 					c.Loop = n
+					c.Text = body
 					cur.Decr[n] = c
 				}
 			case "noterm":
